@@ -174,8 +174,18 @@ impl Property for C05 {
                 children.push(Child { c: 1000 * (i as i64 + 1), fails: false, immediate: rng.chance(1, 3) });
             }
         }
+        // back-to-back selects that list the same few children again and again while these finish:
+        // every select's own exchange must be told apart from its predecessor's
+        let relist = !await_race && rng.chance(1, 6);
+        if relist {
+            children.clear();
+            let n = 2 + rng.usize(2);
+            for i in 0..n {
+                children.push(Child { c: 1000 * (i as i64 + 1), fails: false, immediate: rng.chance(1, 2) });
+            }
+        }
         let nchildren = children.len();
-        let nsel = 1 + rng.usize(3);
+        let nsel = if relist { 3 + rng.usize(3) } else { 1 + rng.usize(3) };
         let mut selects: Vec<Vec<Src>> = Vec::new();
         let mut next_int = 1i64;
         let mut interesting_ints: Vec<i64> = Vec::new();
@@ -190,6 +200,19 @@ impl Property for C05 {
                     srcs.push(Src::Proc(i));
                 }
                 h.u64(0xa7a17);
+                selects.push(srcs);
+                continue;
+            }
+            if relist {
+                let mut order: Vec<usize> = (0..nchildren).collect();
+                rng.shuffle(&mut order);
+                for i in order.into_iter().take(1 + rng.usize(nchildren)) {
+                    srcs.push(Src::Proc(i));
+                }
+                if rng.chance(1, 3) {
+                    srcs.push(Src::Timeout(*rng.pick(&[0u64, 5, 20])));
+                }
+                h.u64(0x4e115);
                 selects.push(srcs);
                 continue;
             }
@@ -274,7 +297,7 @@ impl Property for C05 {
             }
         }
         for (i, c) in children.iter().enumerate() {
-            if !c.immediate && (await_race || rng.chance(3, 4)) {
+            if !c.immediate && (await_race || relist || rng.chance(3, 4)) {
                 acts.push(Act::Go(i));
             }
         }
